@@ -21,22 +21,45 @@ _INPLACE = {"+": operator.iadd, "-": operator.isub, "*": operator.imul, "/": ope
             "<<": operator.ilshift, ">>": operator.irshift, "^": operator.ixor}
 
 
+def _nav(roots, path):
+    c = roots[path[0]]
+    for kind, key in path[1:]:
+        c = raw_get(c, key)
+    return c
+
+
+def user_get(roots, path):
+    """Read a location the way user code does (logged, faultable)."""
+    c = _nav(roots, path[:-1])
+    kind, key = path[-1]
+    return c[key] if kind == "i" else getattr(c, key)
+
+
+def user_set(roots, path, v):
+    c = _nav(roots, path[:-1])
+    kind, key = path[-1]
+    if kind == "i":
+        c[key] = v
+    else:
+        setattr(c, key, v)
+
+
 class FtAction:
     """User callback of a FunctionTask: reads deps / writes targets through the
-    simulated containers (so it is logged and can be failed on schedule)."""
+    simulated containers (so it is logged and can be failed on schedule).  Holds the
+    root containers only (picklable together with the manager)."""
 
-    def __init__(self, world, name, deps, targets, coefs):
-        self.world, self.name, self.deps, self.targets, self.coefs = world, name, deps, targets, coefs
+    def __init__(self, roots, name, deps, targets, coefs):
+        self.roots, self.name, self.deps, self.targets, self.coefs = roots, name, deps, targets, coefs
 
     def __call__(self):
         C._event("act", 0, self.name)
-        w = self.world
-        vals = [w.user_get(d) for d in self.deps]
+        vals = [user_get(self.roots, d) for d in self.deps]
         for row, t in zip(self.coefs, self.targets):
             tot = row[-1]
             for c, v in zip(row, vals):
                 tot = tot + c * v
-            w.user_set(t, tot)
+            user_set(self.roots, t, tot)
 
 
 class World:
@@ -139,17 +162,10 @@ class World:
         return c
 
     def user_get(self, path):
-        c = self._container(path[:-1])
-        kind, key = path[-1]
-        return c[key] if kind == "i" else getattr(c, key)
+        return user_get(self.rootobj, path)
 
     def user_set(self, path, v):
-        c = self._container(path[:-1])
-        kind, key = path[-1]
-        if kind == "i":
-            c[key] = v
-        else:
-            setattr(c, key, v)
+        user_set(self.rootobj, path, v)
 
     # ---- observation (never logged) ------------------------------------------
     def contents(self):
@@ -226,7 +242,7 @@ class World:
             ttar = set()
             for t in targets:
                 ttar.update(self.ref(p) for p in prefixes(t))
-            act = FtAction(self, name, deps, targets, coefs)
+            act = FtAction(self.rootobj, name, deps, targets, coefs)
             task = self.xd.tasks.FunctionTask("f:%s" % name, act, ttar, tdeps)
             mgr.register(task)
             self.ftasks[name] = task
@@ -243,6 +259,20 @@ class World:
         elif kind == "unregk":
             mgr.unregister("k:%s" % op[1])
             del self.knobs[op[1]]
+        elif kind == "load":
+            dump = [(str(self.ref(p)), str(self.build(a))) for p, a in op[1]]
+            mgr.load(dump, overwrite=bool(op[2]))
+            mgr.run_tasks(mgr.find_tasks())
+        elif kind == "refresh":
+            mgr.refresh()
+        elif kind == "cleanup":
+            mgr.cleanup()
+        elif kind == "verify":
+            mgr.verify()
+        elif kind == "freeze":
+            mgr.freeze_tree()
+        elif kind == "unfreeze":
+            mgr.unfreeze_tree()
         else:
             raise AssertionError(op)
 
